@@ -244,6 +244,24 @@ func execute(t *testing.T, c Case, n int) (rr runResult) {
 			if cl != nil {
 				cl.Peer.Inject([]byte("\xde\xad\xbe\xef\x00\x01\x02\x03garbage!"))
 			}
+		case "silence-writer-blocked":
+			// the path goes silent while a download is in progress: the server's carrier write is stuck in the
+			// kernel (held for good - only closing that socket ends it), nothing arrives in either direction, the
+			// application and the target give up. Keep-alive time-outs end the session on both sides.
+			if cl != nil {
+				cl.HoldEndsAtClose, cl.Peer.HoldEndsAtClose = true, true
+				a, tg, ok := one(n)
+				if !ok {
+					return
+				}
+				cl.Peer.HoldNextWriteReturn()
+				tg.StartWrite(world.Payload(5, 0, 1<<20))
+				bubble.Wait()
+				cl.StallIncoming(true)
+				cl.Peer.StallIncoming(true)
+				a.Close()
+				tg.Close()
+			}
 		case "silence":
 			if cl != nil {
 				cl.StallIncoming(true)
@@ -340,6 +358,13 @@ func cases(_ bool) []Case {
 						}
 						out = append(out, Case{carrier, overlap, closer, data, ending})
 					}
+				}
+			}
+		}
+		if carrier == "stream" || carrier == "ws" {
+			for _, closer := range []string{"app", "target"} {
+				for _, data := range []int{0, 3000} {
+					out = append(out, Case{carrier, false, closer, data, "silence-writer-blocked"})
 				}
 			}
 		}
